@@ -220,6 +220,34 @@ def a64_leaf_func(name, rng):
     b = [Boundary(0, 0, row, kind="entry"), Boundary(4, 0, row, kind="body"), Boundary(8, 0, row, kind="epilogue")]
     return Func(name, "leaf", b, 12)
 
+def a64_fpleaf_func(name, rng):
+    """a leaf that spills only x29 (uses it as a scratch register): str x29,[sp,#-16]!; ...; ldr x29,[sp],#16; ret -
+    the row restores fp but not lr (lr is still in the register)"""
+    r = R("a64")
+    row0 = dict(cfa=("r", r["sp"], 0), fp=("s",), ra=("s",))
+    row1 = dict(cfa=("r", r["sp"], 16), fp=("o", -16), ra=("s",))
+    b = [Boundary(0, 0, row0, kind="entry")]
+    for off in (4, 8, 12):
+        bd = Boundary(off, 16, row1, saved={"fp": -16}, kind="body"); bd.fp_scratch = off > 4
+        b.append(bd)
+    b.append(Boundary(16, 0, row0, kind="epilogue"))
+    return Func(name, "fpleaf", b, 20)
+
+def valfp_func(name, rng, arch):
+    """a function entered only from callers whose frame pointer equals their stack pointer at the call (aarch64: every
+    frame-record function after `mov x29, sp`; x86_64: `push rbp; mov rbp, rsp` without further pushes): its CFI states
+    the caller's frame pointer as a VALUE, DW_CFA_val_offset(fp, 0) = CFA, and the function is free to clobber fp"""
+    f = x86_frameless_func(name, rng, npush=0, alloc=8 * rng.range(1, 6)) if arch == "x86" else a64_frameless_func(name, rng)
+    for bd in f.bounds:
+        bd.row = dict(bd.row, fp=("vo", 0))
+        if bd.kind != "entry" and arch == "x86":
+            # (x86_64 only: the aarch64 rules insist that every caller's x29 is a frame pointer above the callee's -
+            # a platform convention framehop relies on - so no aarch64 function of the programs uses x29 as scratch
+            # while it has callees)
+            bd.fp_scratch = True
+    f.shape = "valfp"; f.valfp = True
+    return f
+
 # ------------------------------------------------------------------ programs and scenarios
 def make_program(rng, arch, nfuncs=8):
     funcs = [root_func("root", arch, rng)]
@@ -252,6 +280,12 @@ def make_program(rng, arch, nfuncs=8):
                 f = a64_frameless_func("f%d" % i, rng, frame=rng.choice([0x3fff0, 0x40000, 0x40010, 0x50000, 0xffff0, 0x100000]), top_slot=True)
                 f.shape = "bigframe"
         funcs.append(f)
+    funcs.append(valfp_func("v0", rng, arch))
+    if arch == "x86":
+        g = x86_fp_func("p0", rng, npush=0, alloc=0); g.fp_is_sp = True
+        funcs.append(g)
+    else:
+        funcs.append(a64_fpleaf_func("l0", rng))
     for f in funcs:
         f.arch = arch
     # lay out: adjacent, sometimes with gaps; function after a noreturn one starts right at its end
@@ -277,13 +311,19 @@ PAC = 0x5a << 56
 def make_scenario(rng, arch, funcs, base_avma, stack_top, depth, sign_mask=None):
     """Returns dict(pc, regs(sp,fp,lr), mem dict, chain=[(ra, caller_sp, caller_fp),...] innermost first)."""
     root = funcs[0]
-    others = [f for f in funcs[1:] if f.shape != "leaf"]
-    leaves = [f for f in funcs[1:] if f.shape == "leaf"]
+    others = [f for f in funcs[1:] if f.shape not in ("leaf", "fpleaf")]
+    leaves = [f for f in funcs[1:] if f.shape in ("leaf", "fpleaf")]
     chain_funcs = [root] + [rng.choice(others) for _ in range(depth - 1)]
     if leaves and rng.chance(1, 3):
         chain_funcs.append(rng.choice(leaves))
     else:
         chain_funcs.append(rng.choice(others))
+    # now and then a val_offset function behind a caller that meets its entry condition (fp == sp at the call)
+    vf = [f for f in funcs if getattr(f, "valfp", False)]
+    ok_callers = [f for f in funcs[1:] if getattr(f, "fp_is_sp", False) or (arch == "a64" and f.shape in ("fp", "fp-sign"))]
+    if vf and ok_callers and len(chain_funcs) >= 3 and rng.chance(1, 4):
+        i = rng.range(2, len(chain_funcs) - 1)
+        chain_funcs[i - 1] = rng.choice(ok_callers); chain_funcs[i] = vf[0]
     mem = {}
     x86 = arch == "x86"
     # root frame
@@ -294,6 +334,10 @@ def make_scenario(rng, arch, funcs, base_avma, stack_top, depth, sign_mask=None)
     lr_reg = 0
     for idx, f in enumerate(chain_funcs):
         innermost = idx == len(chain_funcs) - 1
+        if getattr(f, "valfp", False) and (idx == 0 or fpv != sp):
+            # its entry condition does not hold behind this caller: somebody else is called instead
+            f = rng.choice([g for g in others if not getattr(g, "valfp", False)])
+            chain_funcs[idx] = f
         entry_sp = sp if (idx == 0) else (sp - 8 if x86 else sp)
         if idx > 0 and x86:
             mem[entry_sp] = ra_in
